@@ -1347,6 +1347,113 @@ def li_family(ctx, cases, n_cases):
                 break
 
 
+def li_entry_family(ctx, cases, n_cases):
+    """the public entry points LocalInteraction.play / time_series with their own argument handling:
+    revision (incl. an invalid string), player_ind_seq omitted / int / sequence of ints and lists (also empty and
+    too short), num_reps / ts_length (incl. 0 and 1), the drawn player sequence.  The model op `lientry` gets the
+    raw arguments; the oracle derives the revising sets here, independently, and judges by `li_reach`."""
+    from quantecon.game_theory import LocalInteraction
+    rng = ctx.rng
+    for ci in range(n_cases):
+        n, N = rng.randint(2, 3), rng.randint(2, 5)
+        A = rand_payoff(rng, n, kind=rng.choice([0, 2, 4, 1]))
+        adj = [[(rng.choice([0.5, 1.0, 2.0]) if i != j and rng.random() < 0.7 else 0.0) for j in range(N)] for i in range(N)]
+        acts = [rng.randrange(n) for _ in range(N)]
+        rnd = rng.random() < 0.3
+        tb = "random" if rnd else "smallest"
+        call = rng.choice(["play", "time_series"])
+        revision = rng.choice(["simultaneous", "asynchronous", "asynchronous", "asynchronous"])
+        if rng.random() < 0.08:
+            revision = rng.choice(["sequential", "", "Simultaneous"])
+            ctx.count("li-entry:invalid-revision")
+        cnt = rng.choice([0, 1, 2, 3, 4, 6])
+        kind = rng.choice(["none", "int", "list", "list", "list"])
+        if kind == "none":
+            arg_py, arg_w, entries = None, "none", None
+        elif kind == "int":
+            p_ = rng.randrange(N)
+            arg_py, arg_w, entries = p_, "i%d" % p_, None
+        else:
+            L = rng.choice([0, 1, 2, cnt, cnt + 1, max(cnt - 1, 0), 5])
+            entries = [rng.randrange(N) if rng.random() < 0.55 else rng.sample(range(N), rng.randint(1, N)) for _ in range(L)]
+            arg_py = [e if isinstance(e, int) else list(e) for e in entries]
+            arg_w = "l:" + ",".join(str(e) if isinstance(e, int) else "s" + "+".join(map(str, e)) for e in entries)
+        rec = Rec(rng.randrange(2 ** 31), ri=[rng.randrange(12) for _ in range(40)] if rng.random() < 0.5 else None)
+        li = LocalInteraction(A, adj)
+        kw = {"revision": revision, "actions": tuple(acts), "tie_breaking": tb, "random_state": rec}
+        if arg_py is not None or rng.random() < 0.5:
+            kw["player_ind_seq"] = arg_py
+        replay = {"op": "li-entry:" + call, "A": A, "adj": adj, "actions": acts, "revision": revision,
+                  "player_ind_seq": arg_py, "count": cnt, "tie_breaking": tb}
+        try:
+            if call == "play":
+                out = li.play(num_reps=cnt, **kw)
+                got = [[int(v) for v in out]]
+            else:
+                out = li.time_series(cnt, **kw)
+                got = [[int(v) for v in r] for r in out]
+            status = "ok"
+        except (ValueError, TypeError, IndexError) as e:
+            status, got = type(e).__name__, None
+            ctx.count("li-entry:" + status)
+        except Exception as e:
+            ctx.spec_fail("li_exception", "%s raised %s: %s" % (call, type(e).__name__, e), replay)
+            continue
+        drawn = rec.log_ps[0] if rec.log_ps else []
+        replay.update({"drawn": drawn, "randint_scalars": rec.log_ri, "result": got, "status": status})
+        # ---- what the documentation-as-code prescribes, derived independently of the model
+        valid_rev = revision in ("simultaneous", "asynchronous")
+        if not valid_rev:
+            want, periods = "ValueError", None
+        elif call == "play":
+            want = "ok"
+            if revision == "simultaneous":
+                periods = [[list(range(N))] for _ in range(cnt)]
+            elif kind == "none":
+                periods = [[[p_]] for p_ in drawn[:cnt]]
+            elif kind == "int":
+                periods = [[[arg_py]]]
+            else:
+                periods = [[[e] if isinstance(e, int) else list(e)] for e in entries]
+        else:
+            if cnt == 0:
+                want, periods = "IndexError", None
+            elif revision == "simultaneous":
+                want, periods = "ok", [[list(range(N))] for _ in range(cnt - 1)]
+            elif kind == "none":
+                want, periods = "ok", [[[p_]] for p_ in drawn[:cnt - 1]]
+            elif kind == "int":
+                want, periods = ("TypeError", None) if cnt >= 2 else ("ok", [])
+            elif len(entries) < cnt - 1:
+                want, periods = "IndexError", None
+            else:      # a list entry is handed to play() as a sequence: its players revise one after the other
+                want, periods = "ok", [[[e]] if isinstance(e, int) else [[q] for q in e] for e in entries[:cnt - 1]]
+        if status != want:
+            ctx.spec_fail("li_entry_status", "%s(revision=%r, player_ind_seq=%r, %d): outcome %s, expected %s"
+                          % (call, revision, arg_py, cnt, status, want), replay)
+        elif status == "ok":
+            chain = ([acts] + got) if call == "play" else got
+            if call == "time_series" and (len(got) != cnt or got[0] != acts):
+                ctx.spec_fail("li_entry_rows", "time_series returned %d rows for ts_length=%d / wrong first row" % (len(got), cnt), replay)
+            else:
+                steps = [[r for per in periods for r in per]] if call == "play" else periods
+                for t in range(len(chain) - 1):
+                    reach = li_reach(A, adj, n, [chain[t]], steps[t], rnd, TOL)
+                    if reach is not None and tuple(chain[t + 1]) not in reach:
+                        ctx.spec_fail("li_entry_transition", "%s(revision=%r, player_ind_seq=%r, %d) from %s: %s -> %s is not "
+                                      "what the revising sets %s prescribe" % (call, revision, arg_py, cnt, acts, chain[t],
+                                                                             chain[t + 1], steps[t]), replay)
+                        break
+                ctx.count("li-entry:judged-by-definition")
+        ctx.count("li-entry:%s:%s:%s" % (call, revision if valid_rev else "invalid", kind))
+        line = ("C20 lientry mode=rat call=%s A=%s adj=%s tol=%s rnd=%d actions=%s revision=%s arg=%s n=%d drawn=%s ri=%s"
+                % (call, intm(A), fxm(adj), fx(TOL), int(rnd), ints(acts), revision or "empty", arg_w, cnt, ints(drawn),
+                   ints(rec.log_ri + SENTINEL)))
+        impl = ("ERR:" + status) if status != "ok" else \
+            ("%s|1" % ints(got[0]) if call == "play" else "%s|1" % intm(got))
+        cases.append(Case(line, impl, nontrivial=(status == "ok" and cnt >= 2), tag="lientry:" + call))
+
+
 # ----------------------------------------------------------------------------
 # LogitDynamics
 
@@ -1803,6 +1910,7 @@ def run(ctx):
     _timed(ctx, "fp_family", fp_family, ctx, cases, ctx.n(60, 1500))
     _timed(ctx, "fpn_family", fpn_family, ctx, cases, ctx.n(50, 1000))
     _timed(ctx, "li_family", li_family, ctx, cases, ctx.n(100, 3000))
+    _timed(ctx, "li_entry_family", li_entry_family, ctx, cases, ctx.n(120, 2500))
     _timed(ctx, "logit_family", logit_family, ctx, cases, ctx.n(80, 2000))
     _timed(ctx, "determinism_family", determinism_family, ctx, ctx.n(6, 40))
     _timed(ctx, "history_family", history_family, ctx, cases, ctx.n(60, 600))
